@@ -112,12 +112,23 @@ Record placement := mkPl { pl_grant : gplace;   (* grant_type *)
    request of a third client P with its full credential, or X's own fully credentialed request.  No guard keeps state between requests,
    so the model does not read it. *)
 Inductive prevk := NoPrev | PrevAssert | PrevBasic | PrevPost
-                | PrevSelf.   (* X's own request on the same endpoint and grant, with the full credential of its
+                | PrevSelf    (* X's own request on the same endpoint and grant, with the full credential of its
                                  registered method and an artefact of its own, immediately before *)
+                | PrevOtherHost.   (* round 11: the provider derives its issuer from the request's host (IssuerFromHost); X's own
+                                 fully credentialed request arrived at ANOTHER host of the same provider instance immediately
+                                 before (its client assertion / grant assertion addressed to that host's issuer) *)
+
+(* round 11: the state of the token the request carries - the token to introspect / to revoke, the grant assertion
+   of the jwt-bearer grant.  ArtJunk: a string that does not decode (not an encrypted token id, not a JWT of this
+   provider; a grant assertion that is no JWT).  ArtGone: well formed, but names nothing live (unknown / expired
+   token id; a signed grant assertion that is expired or addressed to another issuer).  The other grants' artefacts
+   (code, refresh_token, device_code, subject_token) are always live in the cases of this check. *)
+Inductive artk := ArtOk | ArtJunk | ArtGone.
+Definition art_ok (a : artk) : bool := match a with ArtOk => true | _ => false end.
 
 Record input := mkInput { i_router : router; i_endpoint : endpoint; i_cfg : cfg;
                           i_reg : reg; i_pres : pres; i_grant : grant; i_pl : placement;
-                          i_prev : prevk }.
+                          i_prev : prevk; i_art : artk }.
 
 Inductive stclass := S1 | S2 | S3 | S4 | S5.
 Inductive ecode := ENone | EInvalidRequest | EInvalidClient | EInvalidGrant | EUnauthorizedClient
@@ -347,9 +358,9 @@ Definition p_te (c : cfg) (rg : reg) (p : pres) : result :=
   end.
 
 (* the assertion is the grant: its issuer must have a registered key *)
-Definition bearer_ok (rg : reg) : bool := r_known rg && r_key rg.
-Definition p_bearer (rg : reg) : result :=
-  if bearer_ok rg then Granted else r4 EServerError.
+Definition bearer_ok (rg : reg) (art : artk) : bool := r_known rg && r_key rg && art_ok art.
+Definition p_bearer (rg : reg) (art : artk) : result :=
+  if bearer_ok rg art then Granted else r4 EServerError.
 
 Inductive cid := CidErr (r : result) | CidOk (authenticated by_assertion : bool).
 Definition client_id_from_request (rg : reg) (p : pres) : cid :=
@@ -383,11 +394,11 @@ Definition p_device (c : cfg) (rg : reg) (p : pres) (art : place) (own : bool) :
       else if device_client_authenticated c rg au ba then Granted else r4 EInvalidClient
   end.
 
-Definition p_token (c : cfg) (rg : reg) (p : pres) (pl : placement) (g : grant) (own : bool) : result :=
+Definition p_token (c : cfg) (rg : reg) (p : pres) (pl : placement) (g : grant) (own : bool) (art : artk) : result :=
   match read_grant src_dispatch_p (pl_grant pl) g with
   | GCode => p_code c rg p own
   | GRefresh => if f_refresh c then p_refresh c rg p own else r4 EUnsupportedGrantType
-  | GBearer => p_bearer rg
+  | GBearer => p_bearer rg art
   | GTE => if c_te c then p_te c rg p else r4 EUnsupportedGrantType
   | GCC => if c_cc c then p_cc c rg p else r4 EUnsupportedGrantType
   | GDevice => if c_dev c then p_device c rg p (pl_art pl) own else r4 EUnsupportedGrantType
@@ -396,16 +407,22 @@ Definition p_token (c : cfg) (rg : reg) (p : pres) (pl : placement) (g : grant) 
   end.
 
 (* errors of the introspection endpoint are plain text 401; SetIntrospectionFromToken fails for a
-   caller outside the token's audience *)
-Definition p_introspect (rg : reg) (p : pres) (own : bool) : result :=
+   caller outside the token's audience.  The caller is authenticated FIRST (ParseTokenIntrospectionRequest);
+   only then is the token decoded (getTokenIDAndSubject) and looked up: a token that does not decode or names
+   nothing live is answered active:false - to an authenticated caller only *)
+Definition p_introspect (rg : reg) (p : pres) (own : bool) (art : artk) : result :=
   match client_id_from_request rg p with
-  | CidOk true _ => if own then Granted else Inactive
+  | CidOk true _ => if own && art_ok art then Granted else Inactive
   | _ => r4 ENotJSON
   end.
 
-(* Storage.RevokeToken refuses a token that belongs to another client *)
-Definition p_revoke (c : cfg) (rg : reg) (p : pres) (own : bool) : result :=
-  let ok := if own then Granted else r4 EInvalidClient in
+(* Storage.RevokeToken refuses a token that belongs to another client; a token that does not decode or that the
+   storage does not know is answered 200 with nothing revoked (RFC 7009 2.2) - [Inactive] - after the client
+   authenticated *)
+Definition revoke_outcome (own : bool) (art : artk) : result :=
+  if art_ok art then (if own then Granted else r4 EInvalidClient) else Inactive.
+Definition p_revoke (c : cfg) (rg : reg) (p : pres) (own : bool) (art : artk) : result :=
+  let ok := revoke_outcome own art in
   if is_jwt (atype_of p) then   (* req.ClientAssertionType == jwt-bearer *)
     if negb (f_pkjwt c) then r4 EInvalidClient
     else if assertion_opt_ok rg (assertion_of p) then ok else r5 EServerError
@@ -470,7 +487,7 @@ Definition l_with_client (c : cfg) (rg : reg) (p : pres) (gp : gplace) (g : gran
        | g' => if registered rg g' then k else r4 EUnauthorizedClient
        end)).
 
-Definition l_token (c : cfg) (rg : reg) (p : pres) (pl : placement) (g : grant) (own : bool) : result :=
+Definition l_token (c : cfg) (rg : reg) (p : pres) (pl : placement) (g : grant) (own : bool) (art : artk) : result :=
   let gp := pl_grant pl in
   match read_grant src_dispatch_l gp g with
   | GCode => l_with_client c rg p gp g (if own then Granted else r4 EInvalidGrant)
@@ -480,7 +497,7 @@ Definition l_token (c : cfg) (rg : reg) (p : pres) (pl : placement) (g : grant) 
   | GCC => l_with_client c rg p gp g
                   (if is_none (r_meth rg) then r4 EInvalidClient else Granted)
   | GBearer => if negb (c_jp c) then r4 EUnsupportedGrantType   (* provider.(JWTAuthorizationGrantExchanger) *)
-               else if bearer_ok rg then Granted else r4 EInvalidRequest
+               else if bearer_ok rg art then Granted else r4 EInvalidRequest
   | GTE => l_with_client c rg p gp g
                   (if is_none (r_meth rg) then r4 EInvalidClient
                    else if c_te c then Granted else r4 EUnsupportedGrantType)
@@ -491,8 +508,8 @@ Definition l_token (c : cfg) (rg : reg) (p : pres) (pl : placement) (g : grant) 
   | GImplicit | GUnknown => r4 EUnsupportedGrantType
   end.
 
-Definition l_introspect (c : cfg) (rg : reg) (p : pres) (own : bool) : result :=
-  let ok := if own then Granted else Inactive in
+Definition l_introspect (c : cfg) (rg : reg) (p : pres) (own : bool) (art : artk) : result :=
+  let ok := if own && art_ok art then Granted else Inactive in
   l_parse p (fun id sec ass ty =>
     match ass with
     | Some a => if negb (c_jp c) then r4 EInvalidClient   (* provider.(ClientJWTProfile): an assertion is never
@@ -505,8 +522,8 @@ Definition l_introspect (c : cfg) (rg : reg) (p : pres) (own : bool) : result :=
               end
     end).
 
-Definition l_revoke (c : cfg) (rg : reg) (p : pres) (own : bool) : result :=
-  l_with_client c rg p GPBody GMissing (if own then Granted else r4 EInvalidClient).
+Definition l_revoke (c : cfg) (rg : reg) (p : pres) (own : bool) (art : artk) : result :=
+  l_with_client c rg p GPBody GMissing (revoke_outcome own art).
 
 Definition l_device_authz (c : cfg) (rg : reg) (p : pres) : result :=
   l_with_client c rg p GPBody GMissing
@@ -518,15 +535,15 @@ Definition l_device_authz (c : cfg) (rg : reg) (p : pres) : result :=
 
 (* [rg], [p]: the client and credential the request names; [own]: the grant artefact belongs to it *)
 Definition authenticate (r : router) (e : endpoint) (c : cfg) (rg : reg) (p0 : pres) (pl : placement)
-    (g : grant) (own : bool) : result :=
+    (g : grant) (own : bool) (art : artk) : result :=
   let p := seen src_client (pl_client pl) p0 in
   match r, e with
-  | RProvider, EToken => p_token c rg p pl g own
-  | RProvider, EIntrospect => p_introspect rg p own
-  | RProvider, ERevoke => p_revoke c rg p own
+  | RProvider, EToken => p_token c rg p pl g own art
+  | RProvider, EIntrospect => p_introspect rg p own art
+  | RProvider, ERevoke => p_revoke c rg p own art
   | RProvider, EDeviceAuthz => p_device_authz c rg p
-  | RLegacy, EToken => l_token c rg p pl g own
-  | RLegacy, EIntrospect => l_introspect c rg p own
-  | RLegacy, ERevoke => l_revoke c rg p own
+  | RLegacy, EToken => l_token c rg p pl g own art
+  | RLegacy, EIntrospect => l_introspect c rg p own art
+  | RLegacy, ERevoke => l_revoke c rg p own art
   | RLegacy, EDeviceAuthz => l_device_authz c rg p
   end.
